@@ -122,6 +122,7 @@ def f_dot_laws(s1, s2, s3):
         k = R.real("k", "nonneg" if (len(s2) == 3 and s2[2] == "tau") else "real")
         ca, cb, cc = spec.cart(lib, a), spec.cart(lib, b), spec.cart(lib, c)
         d = len(s1) + 1
+        R.assume(k != 0)  # k*b must stay representable in polar / eta / theta storage (rho > 0)
         goals = [
             ("symmetric", G.eq(a.dot(b), b.dot(a))),
             ("definition", G.eq(a.dot(b), laws.mdot(ca, cb))),
